@@ -18,6 +18,10 @@
  *                                                    MPI_Init_thread, parsec_init(nb) with the default map: per thread
  *                                                    "<es->core_id>:ok" or "<core>:OUT{affinity}" when the thread's real
  *                                                    affinity (pthread_getaffinity_np) leaves the process cpuset
+ *  hw S C nb sing                                    HWLOC_SYNTHETIC="pack:S core:C pu:1" HWLOC_THISSYSTEM=1, parsec_hwloc_init(),
+ *                                                    parsec_vpmap_init("hwloc", nb): the whole map
+ *  phw S C nb                                        same machine, PARSEC_MCA_runtime_vpmap=hwloc through parsec_init(nb):
+ *                                                    "ctx_vps=<n> | <map threads>/<vp->nb_cores> ..."
  * observation:  vps=<n> total=<t> | <threads>: [nbcores,ht,cpuset] ... | ...   or   CRASH */
 #include "parsec/parsec_config.h"
 #include <dlfcn.h>
@@ -197,6 +201,40 @@ static void do_pinit(char *l)      /* nb <spec> : the user's path, counts only *
     MPI_Finalize();
 }
 
+static void synthetic(long S, long C)
+{
+    char t[64]; snprintf(t, sizeof t, "pack:%ld core:%ld pu:1", S, C);
+    setenv("HWLOC_SYNTHETIC", t, 1); setenv("HWLOC_THISSYSTEM", "1", 1);
+}
+static void do_hw(char *l)         /* S C nb sing */
+{
+    char *p = l; long S = next_long(&p), C = next_long(&p); int nb = next_long(&p);
+    parsec_runtime_singlify_bindings = next_long(&p);
+    synthetic(S, C);
+    fake_cores = 0; parsec_report_binding_issues = 0;
+    parsec_hwloc_init();
+    mallopt(M_PERTURB, 0xa5); paint_stack();
+    char spec[] = "hwloc";
+    parsec_vpmap_init(spec, nb);
+    emit_map();
+}
+static void do_phw(char *l)        /* S C nb : the user path */
+{
+    char *p = l; long S = next_long(&p), C = next_long(&p); int nb = next_long(&p);
+    synthetic(S, C);
+    fake_cores = 0;
+    setenv("PARSEC_MCA_runtime_vpmap", "hwloc", 1);
+    setenv("PARSEC_MCA_runtime_report_binding_issues", "0", 1);
+    setenv("PARSEC_MCA_bind_threads", "0", 1);
+    int prov, argc = 1; char *av[] = { "h_vpmap", NULL }; char **argv = av;
+    MPI_Init_thread(&argc, &argv, MPI_THREAD_SERIALIZED, &prov);
+    parsec_context_t *ctx = parsec_init(nb, &argc, &argv);
+    if (!ctx) { emit("<parsec_init failed>"); return; }
+    emit("ctx_vps=%d", ctx->nb_vp);
+    for (int v = 0; v < ctx->nb_vp; v++) emit(" | %d/%d", parsec_vpmap_get_vp_threads(v), ctx->virtual_processes[v]->nb_cores);
+    parsec_fini(&ctx);
+    MPI_Finalize();
+}
 static void do_cinit(char *l)      /* nb sing cpulist : the user path under a restricted process cpuset */
 {
     char *p = l; int nb = next_long(&p); long sing = next_long(&p);
@@ -246,6 +284,8 @@ int main(int argc, char **argv)
         else if (!strncmp(l, "bind ", 5)) in_child(do_bind, l + 5, 60);
         else if (!strncmp(l, "pinit ", 6)) in_child(do_pinit, l + 6, 120);
         else if (!strncmp(l, "cinit ", 6)) in_child(do_cinit, l + 6, 120);
+        else if (!strncmp(l, "hw ", 3)) in_child(do_hw, l + 3, 20);
+        else if (!strncmp(l, "phw ", 4)) in_child(do_phw, l + 4, 120);
         else printf("<bad case>\n");
         fflush(stdout);
     }
